@@ -13,6 +13,7 @@ import AaVerif.Props.C08
 import AaVerif.Aa.Resolve
 import AaVerif.Aa.FromLog
 import AaVerif.Generated.LogRx
+import AaVerif.Aa.Parse
 open Proto
 
 /-- model of a builder by name, when it is one of the literal replace lists -/
@@ -216,8 +217,8 @@ def strs (s : String) : List String := (unescList s).map String.ofList
 
 def suitePrepare (f : List String) : String :=
   match f with
-  | [src, ign, ub, cu, r41, ow, full, fl, ed] =>
-    let i : Prep.Input := ⟨decListing src, strs ign, decListing ub, cu == "1", strs r41, strs ow, decListing full, strs fl, strs ed⟩
+  | [src, ign, ub, cu, r41, ow, full, fl, ed, sd] =>
+    let i : Prep.Input := ⟨decListing src, strs ign, decListing ub, cu == "1", strs r41, strs ow, decListing full, strs fl, strs ed, decListing sd⟩
     let out := (Prep.spec i).toArray.qsort (fun a b => a.1 < b.1) |>.toList
     "ok\t" ++ escList (out.map (fun p => (String.intercalate "/" p.1 ++ "=" ++ p.2).toList)) ++ "\t" ++ b2s (Prep.uniqueBase i.src)
   | _ => "err\tbad-op"
@@ -261,6 +262,56 @@ def suiteFromLog (f : List String) : String :=
   | some rs => "ok\t" ++ esc (String.intercalate "," flags).toList ++ "\t" ++ Aa.encodeRules (rs.map some)
   | none => "panic"
 
+/-- (<rule> <paddings>)* -/
+def decPadded : List String → List (Option Aa.Rule × List (List Char))
+  | r :: p :: rest => if r == "" then decPadded rest else (Aa.decodeRule r, unescList p) :: decPadded rest
+  | [r] => if r == "" then [] else [(Aa.decodeRule r, [])]
+  | [] => []
+
+def suiteRender1 (f : List String) : String :=
+  match decPadded f with
+  | [(some r, p)] => "ok\t" ++ esc (Aa.renderRule r (Aa.padOf p))
+  | _ => "err\tbad-op"
+
+def suiteRender (f : List String) : String := "ok\t" ++ esc (Aa.renderRules (decPadded f))
+
+def resTo {α : Type} (x : Aa.Parse.Res α) (g : α → String) : String :=
+  match x with
+  | .ok a => g a
+  | .err => "err"
+  | .panic => "panic"
+
+def suiteTokenize (f : List String) : String :=
+  match f with
+  | [h, t] => resTo (Aa.Parse.tokenize (h == "1") (unesc t)) (fun l => "ok\t" ++ escList l)
+  | [h] => resTo (Aa.Parse.tokenize (h == "1") []) (fun l => "ok\t" ++ escList l)
+  | _ => "err\tbad-op"
+
+partial def encTree (t : List Aa.Parse.KV) : String :=
+  String.join (t.map fun kv =>
+    "<" ++ esc kv.key ++ "^" ++ esc kv.comment ++ (match kv.vals with | some v => "=" ++ encTree v | none => "") ++ ">")
+
+def suiteParseRule (f : List String) : String :=
+  match f with
+  | [h, t] => resTo (Aa.Parse.parseRule (h == "1") (unesc t)) (fun l => "ok\t" ++ encTree l)
+  | [h] => resTo (Aa.Parse.parseRule (h == "1") []) (fun l => "ok\t" ++ encTree l)
+  | _ => "err\tbad-op"
+
+def suiteCommaRules (f : List String) : String :=
+  let t := match f with | [t] => unesc t | _ => []
+  resTo (Aa.Parse.parseCommaRules false t) (fun l => String.intercalate "\t" ("ok" :: l.map encTree))
+
+def suiteParseRules (f : List String) : String :=
+  let t := match f with | [t] => unesc t | _ => []
+  resTo (Aa.Parse.parseRules T t) (fun paras =>
+    String.intercalate "\t" ("ok" :: (List.intercalate ["--"] (paras.map (fun p => p.map (fun r => Aa.encodeRule (some r)))))))
+
+def suiteToAccess (f : List String) : String :=
+  match f with
+  | [k, t] => resTo (Aa.Parse.toAccess T k (unesc t)) (fun l => "ok\t" ++ escList l)
+  | [k] => resTo (Aa.Parse.toAccess T k []) (fun l => "ok\t" ++ escList l)
+  | _ => "err\tbad-op"
+
 def main (args : List String) : IO Unit := do
   match args with
   | ["builder"] => serve suiteBuilder
@@ -283,4 +334,11 @@ def main (args : List String) : IO Unit := do
   | ["mergevalues"] => serve suiteMergeValues
   | ["cmpstr"] => serve suiteCmpStr
   | ["filterspec"] => serve suiteFilterSpec
+  | ["render1"] => serve suiteRender1
+  | ["render"] => serve suiteRender
+  | ["tokenize"] => serve suiteTokenize
+  | ["parserule"] => serve suiteParseRule
+  | ["commarules"] => serve suiteCommaRules
+  | ["parserules"] => serve suiteParseRules
+  | ["toaccess"] => serve suiteToAccess
   | _ => IO.eprintln "usage: driver <suite>"
